@@ -14,16 +14,16 @@ def add(pid, cat, technique, engine, text, note, ref):
     CHECKS[pid] = (cat, technique, engine, text, note, ref)
 
 
-add('C07', 'exploration', 'complete enumeration against an independent Law-77 formula scorer', 'enumeration',
-    'Every one of the 23 520 score cells plus the passed-out cells is evaluated on every run and compared '
+add('C07', 'exploration', 'complete enumeration (three visiting orders) against an independent Law-77 formula scorer; line-level schedule enumeration of concurrent scorers', 'enumeration',
+    'Every one of the 23 520 score cells plus the passed-out cells is evaluated on every run, in three different orders, and compared '
     'with a scorer written from the Laws; for a finite domain complete enumeration is the strongest '
-    'generated-input search there is.',
+    'generated-input search there is. Two concurrent scorers are run under every line-level schedule with <= 1 deviation.',
     'Trusts vf/model/score.py (formula, no repository tables) and name-based lookup of enum members.', '5/C07')
-add('C15', 'exploration', 'complete enumeration of converter round trips and injectivity', 'enumeration',
+add('C15', 'exploration', 'complete enumeration of converter round trips and injectivity (three visiting orders, fresh string objects); line-level schedule enumeration of concurrent converters', 'enumeration',
     'All finite notation domains (52 cards, 52x52 order pairs, 38 calls, seats, vulnerabilities and spellings, '
-    'all contracts x vulnerability x declarer) are enumerated completely on every run.',
+    'all contracts x vulnerability x declarer) are enumerated completely on every run, the contract domain in three orders; pairs of concurrent converter calls on a freshly imported package are run under every line-level schedule with <= 1 deviation.',
     'Trusts the independent notation tables in vf/model and enum lookup by member name.', '5/C15')
-add('C16', 'exploration', 'exhaustive range + Hypothesis integers against the WBF band table; oddness, monotonicity',
+add('C16', 'exploration', 'exhaustive range (walked twice) + Hypothesis integers up to 10**5000 against the WBF band table; oddness, monotonicity, two-score form',
     'enumeration+hypothesis',
     'Exhaustive over [-20000,20000] (quick) / [-200000,200000] (thorough); beyond that generated integers of '
     'arbitrary magnitude, threshold neighbours, ordered pairs and the two-score form.',
@@ -49,7 +49,7 @@ add('C03', 'exploration', 'shape-exhaustive + Hypothesis complete auctions: cont
 
 add('C04', 'exploration', 'Hypothesis-generated boards and single tricks against an independent law-of-play model',
     'hypothesis-inprocess',
-    'Whole boards (generated deal, contract, 52 plays incl. revokes) are compared with the model after every card, '
+    'Whole boards (generated deal, contract, 52 plays incl. revokes) are compared with the model after every card - the table manager and, on half of the boards, four single-seat observers - '
     'and single tricks on the hand-less phase cover every winner position x how-won class.',
     'Trusts vf/model/play.py.', '5/C04')
 add('C05', 'fault_enumeration', 'fault injection at generated positions of generated boards; snapshot-unchanged + conservation oracle',
@@ -60,42 +60,42 @@ add('C05', 'fault_enumeration', 'fault injection at generated positions of gener
     'Observers are only required to refuse what they can see (own hand, disclosed dummy, turn).', '5/C05')
 add('C06', 'exploration', 'Hypothesis hands x led card + reached board states against an independent follow-suit set',
     'hypothesis-inprocess',
-    'Static hands of 1-13 cards x any led card, and every state of generated boards (own hand, dummy hand, all '
-    'observers), plus RandomPlay under seeds drawn by Hypothesis.',
+    'Static hands of 1-13 cards x any led card, and every state of generated boards (every seat on the table manager, own and dummy hand on all '
+    'observers), also after refused plays, plus RandomPlay under seeds drawn by Hypothesis.',
     'RandomPlay uses the global RNG, seeded from drawn integers.', '5/C06')
 add('C11', 'exploration', 'differential between five replicas in process; bundled clients vs server log in simulated sessions',
     'hypothesis-inprocess+sim-sessions',
-    'Five replicas of the play state machine are compared after every card of generated boards; simulated sessions '
+    'Five replicas of the play state machine are compared after every card of generated boards, with refused actions offered to all of them in between; simulated sessions '
     'compare each bundled client\'s view with the server\'s log.',
     'Simulation kernel fidelity (DESIGN.md section 4).', '5/C11')
-add('C14', 'exploration', 'Hypothesis deals through four encoder/decoder round trips + independent canonical PBN renderer',
+add('C14', 'exploration', 'Hypothesis deals through four encoder/decoder round trips (decode - modify - decode again) + independent canonical PBN renderer; line-level schedule enumeration of concurrent dealers and codecs',
     'hypothesis-inprocess',
     'Generated full and partial deals x 4 first seats x 8 numpy dtypes; each encoding decoded back and the PBN text '
-    'compared with an independent renderer; random dealer under drawn seeds.',
+    'compared with an independent renderer; every decoder called again after its first result was modified; random dealer under drawn seeds; pairs of concurrent calls on a freshly imported package under every line-level schedule with <= 1 deviation.',
     'Trusts vf/model/pbn.py.', '5/C14')
 
-add('C12', 'exploration', 'Hypothesis documents: writer -> json.loads + jsonschema + parser round trip (field-by-field, value-object types)',
-    'hypothesis-inprocess',
+add('C12', 'exploration', 'Hypothesis documents: writer -> json.loads + jsonschema + parser round trip (field-by-field, value-object types), StringIO and real files in five encodings, failed writes in between; atheris on the same test (thorough)',
+    'hypothesis-inprocess+atheris',
     'Generated lists of 0-8 board results (any Unicode names, every contract form, arbitrary call lists, 0-13 tricks, '
     'optional dda) are written, validated against the two shipped schemas with jsonschema, parsed back and compared '
     'field by field including the types of the value objects, and re-read as board settings.',
     'Trusts jsonschema Draft7 and the shipped schema files as the published schema.', '5/C12')
-add('C17', 'exploration', 'Hypothesis boards x generated file layouts rendered by an independent PBN renderer -> parser round trip',
-    'hypothesis-inprocess',
+add('C17', 'exploration', 'Hypothesis boards x generated file layouts rendered by an independent PBN renderer -> parser round trip; atheris on the same tests (thorough)',
+    'hypothesis-inprocess+atheris',
     'JSON: writer -> parser round trip incl. schema validation. PBN: an independent renderer produces admissible '
     'import files over the whole layout space named by the property; parsed from StringIO and from a text file.',
     'Trusts vf/model/pbn.py as a renderer of admissible PBN 2.1 import files.', '5/C17')
-add('C18', 'exploration', 'Hypothesis result sequences: PbnWriter -> PbnParser round trip, line-length invariant',
-    'hypothesis-inprocess',
+add('C18', 'exploration', 'Hypothesis result sequences (names up to the exact line limit): PbnWriter -> PbnParser round trip, line-length invariant; atheris on the same tests (thorough)',
+    'hypothesis-inprocess+atheris',
     'Generated sequences of 1-6 board results through one PbnWriter; parse_all / parse_board_settings must return the '
     'games one by one with the 15 mandatory tags and written values; every line <= 255 characters.',
     'Names limited to the property alphabet and to lengths that fit on a line.', '5/C18')
 
 add('C19', 'exploration', 'enumerated + Hypothesis builder->parser round trips; scripted-socket framing with generated chunking and end-of-stream faults',
-    'hypothesis-inprocess+sim-sessions',
+    'hypothesis-inprocess+sim-sessions+atheris',
     'All calls x seats x case variants x alert suffixes and all cards x seats x notations x case variants are '
     'enumerated; hands, case masks, message streams, chunkings and end-of-stream positions are generated; server-built '
-    'headers and Teams lines come from simulated sessions. A deterministic spin detector (1000 empty reads) replaces '
+    'headers and Teams lines come from simulated sessions, and in simulated sessions with generated auctions, plays and alerts every line the server sends is read with the bundled client\'s own parsers. A deterministic spin detector (1000 empty reads) replaces '
     'any wall-clock timeout.',
     'Alert suffix limited to the documented form; scripted socket models recv() returning b"" at end-of-stream.', '5/C19')
 
@@ -106,21 +106,21 @@ add('C08', 'exploration', 'simulated sessions under generated schedules; model-c
     'sim-sessions',
     'The real Server, its seat threads and four scripted reference clients run under a schedule-owning kernel; the '
     'written log is compared field by field with the document computed by the independent models, and a second '
-    'schedule must give a byte-identical file.', SIM_NOTE, '5/C08')
-add('C09', 'exploration', 'schedule-owning simulation: generated schedules (preemption lists, PCT, stalls, random) with deadlock detection',
+    'schedule must give a byte-identical file; some sessions are repeated on real threads and real loopback sockets (same oracles, byte-identical log and transcripts).', SIM_NOTE, '5/C08')
+add('C09', 'exploration', 'schedule-owning simulation: generated schedules (preemption lists, PCT, stalls, random, eager timeouts) + complete <=1-deviation schedule sets, with deadlock detection',
     'sim-sessions',
     'Thread schedules are generated inputs; a lost wake-up shows up deterministically as "no task enabled while one is '
-    'unfinished". Thousands of sessions x schedules per run incl. targeted stalls of every thread. Found and fixed the '
+    'unfinished". Thousands of sessions x schedules per run incl. stalls of every thread, plus the complete set of schedules with at most one deviation from the default policy for fixed small sessions. Found and fixed the '
     'stale-flag barrier deadlock (confirmed on real threads).', SIM_NOTE, '5/C09')
 add('C10', 'exploration', 'simulated sessions: complete per-connection byte streams vs model-computed event sequences',
     'sim-sessions',
     'Every line the server sends on each of the four connections is compared, as an event sequence read with '
     'tolerant readers, with the exact sequence the script entitles that seat to; a global step clock orders the '
     'disclosure of dummy against the opening lead.', SIM_NOTE, '5/C10')
-add('C13', 'fault_enumeration', 'fault injection into simulated sessions at generated abort points; parse-back oracle',
+add('C13', 'fault_enumeration', 'fault injection into simulated sessions at generated abort points + real SIGINT to a real server process; parse-back oracle',
     'sim-sessions',
     'One offending action of each of 10 kinds (or an operator interrupt) is injected at a generated board, phase and '
-    'position under a generated schedule; the output file must parse and hold exactly the finished boards.',
+    'position under a generated schedule; a real SIGINT is sent to a real table-manager process at generated points; the output file must parse and hold exactly the finished boards.',
     SIM_NOTE, '5/C13')
 
 add('C20', 'fault_enumeration', 'generated admission attempt lists (valid + 3 kinds of invalid) in sequential and concurrent arrival under generated schedules; seat-table model in accept order',
@@ -133,8 +133,8 @@ add('C20', 'fault_enumeration', 'generated admission attempt lists (valid + 3 ki
 NOT_APPLICABLE = []
 
 ENGINES = [
-    {'name': 'enumeration', 'path': 'vf/common/runner.py', 'serves_properties': ['C07', 'C15', 'C16'],
-     'kind_free_text': 'complete enumeration of finite domains, sharded over 16 processes'},
+    {'name': 'enumeration', 'path': 'vf/common/runner.py', 'serves_properties': ['C07', 'C14', 'C15', 'C16'],
+     'kind_free_text': 'complete enumeration of finite domains (several visiting orders) and of line-level schedules of concurrent library calls (vf/props/_concurrent.py), sharded over 16 processes'},
     {'name': 'sim-sessions', 'path': 'vf/sim/',
      'serves_properties': ['C08', 'C09', 'C10', 'C11', 'C13', 'C19', 'C20'],
      'kind_free_text': 'deterministic schedule-owning kernel (managed OS threads, one runnable at a time), simulated '
@@ -143,7 +143,10 @@ ENGINES = [
     {'name': 'hypothesis-inprocess', 'path': 'vf/common/core.py',
      'serves_properties': ['C01', 'C02', 'C03', 'C04', 'C05', 'C06', 'C12', 'C14', 'C17', 'C18', 'C19'],
      'kind_free_text': 'Hypothesis 6.168 (given + RuleBasedStateMachine), seeded from VERIF_SEED, 16 shard processes, '
-                       'oracles = independent reference models in vf/model'},
+                       'time-bounded shrinking, oracles = independent reference models in vf/model'},
+    {'name': 'atheris', 'path': 'vf/common/fuzz.py', 'serves_properties': ['C12', 'C17', 'C18', 'C19'],
+     'kind_free_text': 'atheris 3.1 / libFuzzer coverage-guided campaigns (thorough tier) driving the same Hypothesis tests through '
+                       'fuzz_one_input with bridge_env instrumented; one subprocess per shard, oracle inside the target'},
 ]
 
 
